@@ -25,6 +25,7 @@ import (
 	"os"
 	"os/exec"
 	"path/filepath"
+	"strings"
 	"strconv"
 	"syscall"
 	"time"
@@ -50,6 +51,9 @@ func pad(w io.Writer, s string, n int64, key string) {
 		key = "pad"
 	}
 	bw := bufio.NewWriterSize(w, 1<<20)
+	if n > 0 {
+		s = strings.TrimRight(s, " \t\r\n") // a pretty-printed value may end in white space
+	}
 	if n > 0 && len(s) > 0 && s[len(s)-1] == '}' {
 		bw.WriteString(s[:len(s)-1])
 		if len(s) > 2 {
